@@ -1187,18 +1187,28 @@ Section KKProofs.
   Lemma zmin_avg l : l <> [] -> (Z.of_nat (length l) - 1) * zmin l <= zsum l - zmax l.
   Proof.
     intros Hne. destruct (in_split _ _ (zmax_in l Hne)) as (l1 & l2 & E).
-    pose proof (zmin_le l) as HM. rewrite E in HM at 2.
+    pose proof (zmin_le l) as HM.
+    set (m := zmax l) in *. set (mn := zmin l) in *. clearbody m mn. subst l.
     apply Forall_app in HM. destruct HM as [HM1 HM2]. apply Forall_inv_tail in HM2.
     pose proof (zsum_ge_len _ _ HM1) as G1. pose proof (zsum_ge_len _ _ HM2) as G2.
-    assert (HS : zsum l = zsum l1 + (zmax l + zsum l2)).
-    { rewrite E at 1. rewrite zsum_app. reflexivity. }
-    assert (HL : Z.of_nat (length l) = Z.of_nat (length l1) + 1 + Z.of_nat (length l2)).
-    { rewrite E at 1. rewrite app_length. cbn [length]. lia. }
+    rewrite zsum_app, app_length. cbn [length zsum fold_right]. fold (zsum l2).
     nia.
   Qed.
 
   Lemma expands_nonempty h (e : @hentry A) : expands h [e] -> h <> [].
   Proof. intros H. inversion H; discriminate. Qed.
+
+  Lemma ckk_bound_eq k (h : @heap A) lb : ckk_bound k h = Some lb ->
+    (2 <= k)%nat /\
+    lb = - (zmax (heap_flat_sums h)
+            - (zsum (heap_flat_sums h) - zmax (heap_flat_sums h)) / (Z.of_nat k - 1)).
+  Proof.
+    destruct k as [|[|n]]; try discriminate. intros H. split; [lia|].
+    change (Some (- (zmax (heap_flat_sums h)
+                     - (zsum (heap_flat_sums h) - zmax (heap_flat_sums h))
+                       / (Z.of_nat (S (S n)) - 1))) = Some lb) in H.
+    injection H as <-. reflexivity.
+  Qed.
 
   (** whole reachable set: no leaf below h can beat the bound computed at h *)
   Theorem ckk_bound_admissible : forall k its h e lb,
@@ -1216,8 +1226,7 @@ Section KKProofs.
     destruct Hinv' as [HF' _]. destruct (Forall_inv HF') as [Le _].
     unfold heap_flat_sums in D, T2. cbn [flat_map] in D, T2. rewrite app_nil_r in D, T2.
     fold (heap_flat_sums h) in D.
-    destruct k as [|[|n]]; try discriminate. unfold ckk_bound in Hb. cbv zeta in Hb.
-    injection Hb as <-.
+    destruct (ckk_bound_eq _ _ _ Hb) as [Hk2 ->]. clear Hb.
     assert (Hne : heap_flat_sums h <> []).
     { pose proof (expands_nonempty _ _ Hex) as Hh. destruct h as [|e0 t]; [congruence|].
       destruct Hinv as [HF _]. destruct (Forall_inv HF) as [L0 _].
@@ -1227,10 +1236,10 @@ Section KKProofs.
     assert (Hse : sums (snd e) <> []).
     { unfold sums. destruct (snd e); cbn [length] in Le; [lia|discriminate]. }
     pose proof (zmin_avg _ Hse) as Havg.
-    assert (HLs : Z.of_nat (length (sums (snd e))) = Z.of_nat (S (S n))).
-    { unfold sums. rewrite map_length, Le. reflexivity. }
+    assert (HLs : Z.of_nat (length (sums (snd e))) = Z.of_nat k).
+    { unfold sums. rewrite map_length. f_equal. exact Le. }
     rewrite HLs in Havg.
-    set (d := Z.of_nat (S (S n)) - 1) in *. assert (Hd : 0 < d) by lia.
+    set (d := Z.of_nat k - 1) in *. assert (Hd : 0 < d) by lia.
     set (mx := zmax (heap_flat_sums h)) in *.
     set (tot := zsum (heap_flat_sums h)) in *.
     assert (Hq : zmin (sums (snd e)) <= (tot - mx) / d).
@@ -1249,4 +1258,31 @@ Section KKProofs.
     eapply expands_full; [exact H1|]. apply initial_heap_full. exact Hk.
   Qed.
 
+  (** pruning is sound: a pruned heap has no leaf that would have been accepted *)
+  Corollary ckk_prune_sound : forall k its h e best,
+    heap_full k its h -> Forall (fun x => 0 <= valueof x) its ->
+    pruned k h best = true -> expands h [e] -> gt_best (fst e) best = false.
+  Proof.
+    intros k its h e best Hf Hpos Hp Hex. unfold pruned in Hp.
+    destruct (ckk_bound k h) as [lb|] eqn:Hb; [|discriminate].
+    pose proof (ckk_bound_admissible k its h e lb Hf Hpos Hex Hb) as Hle.
+    destruct best as [b|]; cbn [le_best] in Hp; [|discriminate].
+    cbn [gt_best]. lia.
+  Qed.
+
 End KKProofs.
+
+Print Assumptions initial_heap_inv.
+Print Assumptions kk_partition.
+Print Assumptions kk_erase.
+Print Assumptions kk_gap.
+Print Assumptions perms_sound_local.
+Print Assumptions ckk_partition.
+Print Assumptions ckk_generator_valid.
+Print Assumptions ckk_generator_valid_any.
+Print Assumptions ckk_generator_sorted.
+Print Assumptions ckk_generator_decreasing.
+Print Assumptions ckk_generator_last.
+Print Assumptions ckk_bound_admissible.
+Print Assumptions ckk_bound_admissible_run.
+Print Assumptions ckk_prune_sound.
